@@ -384,7 +384,17 @@ func (b *Builder) findRegistryPackageSource(ctx context.Context, sourceAddr sour
 
 	selectedVersion := availableVersions.NewestInSet(allowedVersions)
 	if selectedVersion == versions.Unspecified {
-		return sourceaddrs.RemoteSource{}, fmt.Errorf("no available version of %s matches the specified version constraint", pkgAddr)
+		// NewestInSet says "nothing matched" with the zero version, which is
+		// also what a genuine version 0.0.0 looks like.
+		zeroIsOffered := false
+		for _, v := range availableVersions {
+			if v == versions.Unspecified && allowedVersions.Has(v) {
+				zeroIsOffered = true
+			}
+		}
+		if !zeroIsOffered {
+			return sourceaddrs.RemoteSource{}, fmt.Errorf("no available version of %s matches the specified version constraint", pkgAddr)
+		}
 	}
 
 	pkgVer := registryPackageVersion{
